@@ -166,6 +166,33 @@ func c18Case(res *core.Result, rng *rand.Rand, t reflect.Type, v reflect.Value, 
 			res.Violate("C18|url-enc-decoys|present-parameter-reported-missing", fmt.Sprintf("Url(%q) with a rule on parameter %q reports it as required although it is present and non-empty: %s", u, key, trunc(o.Err, 300)), map[string]string{"url": u, "key": key, "rules": rulesK, "returned": o.Err})
 		}
 		add("url-enc-decoys", o)
+		// two ruled parameters among parameters without a rule, in every order: each is judged, none is
+		// reported missing (the second one, k2=zz under eq=5, always fails its own rule)
+		{
+			ps := []string{url.QueryEscape("k") + "=" + url.QueryEscape(s), "k2=zz"}
+			for d := 0; d < 1+rng.Intn(3); d++ {
+				ps = append(ps, fmt.Sprintf("free%d=%s", d, []string{"home", "", "1"}[rng.Intn(3)]))
+			}
+			rng.Shuffle(len(ps), func(a, b int) { ps[a], ps[b] = ps[b], ps[a] })
+			u2 := []string{"http://h.example/p?", "/p?", "h.example?"}[rng.Intn(3)] + strings.Join(ps, "&")
+			o2 := drive.Call(func() error { return valid.Url(u2, valid.RM{"k": rules, "k2": "required|m_k2r,eq=5|m_k2x"}) })
+			switch {
+			case o2.Panic != "":
+			case !strings.Contains(o2.Err, "m_k2x"):
+				res.Violate("C18|url-two-ruled|second-parameter-not-judged", fmt.Sprintf("Url(%q): parameter k2=zz under eq=5 is not reported: %s", u2, trunc(o2.String(), 300)), map[string]string{"url": u2, "rules": rules, "returned": o2.String()})
+			case strings.Contains(o2.Err, "m_k2r"):
+				res.Violate("C18|url-two-ruled|present-parameter-reported-missing", fmt.Sprintf("Url(%q): parameter k2 is present but reported as required: %s", u2, trunc(o2.Err, 300)), map[string]string{"url": u2, "rules": rules, "returned": o2.Err})
+			}
+			st, oth := c18Markers(o2)
+			kept := []string{}
+			for _, m := range st {
+				if m != "m_k2x" {
+					kept = append(kept, m)
+				}
+			}
+			all = append(all, obs{"url-two-ruled", o2, kept, oth})
+			res.Count("url_two_ruled_parameters")
+		}
 		// a bare query string ("?k=v", no scheme / host / path)
 		bq := "?" + url.QueryEscape("k") + "=" + url.QueryEscape(s) + "&z=1"
 		add("url-bare-query", drive.Call(func() error { return valid.Url(bq, valid.RM{"k": rules}) }))
